@@ -75,7 +75,7 @@ Proof.
   destruct (monotone_nth 0 offs Hm (off + i) (off + S i)) as [_ Hc]; [lia|lia|].
   destruct (monotone_nth 0 offs Hm (off + S i) (off + len)) as [_ Hd]; [lia|lia|].
   split; [|split; [exact Elen|rewrite E0; replace (off + 0) with off by lia; lia]].
-  unfold var_slot. cbv zeta. rewrite Ei, Ei1.
+  unfold var_slot. cbv zeta. rewrite Ei, Ei1. replace (S (off + i)) with (off + S i) by lia.
   set (a := nth off offs 0%Z) in *. set (b := nth (off + i) offs 0%Z) in *.
   set (c := nth (off + S i) offs 0%Z) in *. set (d := nth (off + len) offs 0%Z) in *.
   subst start n.
